@@ -24,7 +24,7 @@ OFFTURN = ["Kill", "ParentStopChild", "ParentShutdown", "SupervisorStop", "Passi
 THEOREMS = ["C06_poststop_at_most_once_repaired", "C06_poststop_at_most_once_partial", "C06_double_poststop_refuted",
             "C06_prestart_before_first_receive_spawn", "C06_prestart_begun_before_receive",
             "C06_receive_during_restart_prestart_refuted", "C06_overlap_refuted", "C06_overlap_passivation_refuted",
-            "C06_receive_after_poststop_refuted", "C06_partial", "C06_poisonpill_path"]
+            "C06_receive_after_poststop_refuted", "C06_partial", "C06_poisonpill_path", "C06_driver_within_model"]
 
 
 def classify_path(po, clause):
